@@ -241,6 +241,27 @@ def fixed_programs():
         yield {"prog": p, "inputs": ins, "shape": "fixed"}
 
 
+def deep_programs():
+    """the stated maxima combined: 12 levels of nesting where every level is an else-if chain of 60 links, the next level
+    sitting in the last else-if (or in the else) - one path runs through 720 links"""
+    I, L = M.ident, M.lit_int
+    for nest, chain, where in ((12, 60, "last"), (12, 60, "else"), (9, 60, "last"), (12, 45, "first")):
+        body = M.ret([(M.lit_str("leaf"), "1"), (M.lit_str("leaf2"), "1")])
+        for d in range(nest):
+            f = "x%d" % d
+            br = []
+            for i in range(chain):
+                inner = body if ((where == "last" and i == chain - 1) or (where == "first" and i == 0)) else M.ret([(M.lit_str("L%d_%d" % (d, i)), "1")])
+                br.append((M.cmp_(I(f), "==", L(str(i))), inner))
+            body = M.if_(br, body if where == "else" else (M.ret([(M.lit_str("E%d" % d), "1")]) if d % 2 else None))
+        p = M.program("deep", body, salt="s", splitters=["uid"])
+        hit = {"last": chain - 1, "else": chain, "first": 0}[where]
+        envs = [dict({"x%d" % d: hit for d in range(nest)}, uid="u%d" % j) for j in range(2)]
+        envs.append(dict({"x%d" % d: (hit if d > 3 else 5) for d in range(nest)}, uid="u1"))
+        envs.append(dict({"x%d" % d: (hit if d > nest - 2 else chain + 7) for d in range(nest)}, uid="u1"))
+        yield {"prog": p, "inputs": [M.enc_inputs(e) for e in envs], "shape": "deep-%dx%d-%s" % (nest, chain, where)}
+
+
 def selftest():
     refgrammar.selftest()
 
@@ -263,6 +284,9 @@ def run(ctx, rec):
                               "compile / evaluate (still failing for: %s)" % ", ".join(sorted(set(still))))
     if ctx.shard == 0:
         runner.direct_run(ctx, rec, "fixed-shapes", fixed_programs(), judge, known_filter=known_filter)
+        if rec.violations:
+            return
+        runner.direct_run(ctx, rec, "combined-maximum-shapes", deep_programs(), judge, known_filter=known_filter)
         if rec.violations:
             return
     runner.hyp_run(ctx, rec, "typed-programs", cases(), judge, ctx.n(500, 3000), known_filter=known_filter)
